@@ -76,6 +76,13 @@ type cliDecl struct {
 }
 
 type cliTuple struct {
+	// form of the value expression: deref (*v), ident (v), method:<name> (x.<name>()),
+	// call:<callee> (f(…)), literal, other
+	form string
+	// for form ident: how the identifier got its value — decl (a declared option / positional
+	// variable itself), else the callee (or expression kind) of the right-hand side of its
+	// first assignment in the function, e.g. seqio.Detect, h.Sum, gts.AsLocation, index
+	prov string
 	key    string
 	direct []string
 	reads  []string
@@ -535,7 +542,34 @@ func cliFunc(src *source, fd *ast.FuncDecl, pkgs map[string]bool) (*cliCommand, 
 				direct = append(direct, v)
 			}
 		}
-		t := cliTuple{key: key, direct: direct, reads: closure(direct)}
+		form, prov := "other", ""
+		switch v := tl.Elts[1].(type) {
+		case *ast.StarExpr:
+			if _, ok := v.X.(*ast.Ident); ok {
+				form = "deref"
+			}
+		case *ast.Ident:
+			form = "ident"
+			if declVar[v.Name] {
+				prov = "decl"
+			} else {
+				prov = firstAssignKind(body, v.Name)
+			}
+		case *ast.BasicLit:
+			form = "literal"
+		case *ast.CallExpr:
+			switch f := v.Fun.(type) {
+			case *ast.SelectorExpr:
+				if _, isPkg := f.X.(*ast.Ident); isPkg && pkgs[exprString(f.X)] {
+					form = "call:" + exprString(v.Fun)
+				} else {
+					form = "method:" + f.Sel.Name
+				}
+			case *ast.Ident:
+				form = "call:" + f.Name
+			}
+		}
+		t := cliTuple{key: key, direct: direct, reads: closure(direct), form: form, prov: prov}
 		c.payload = append(c.payload, t)
 		for _, v := range direct {
 			if !declVar[v] && !derivedSeen[v] && len(closure([]string{v})) > 0 {
@@ -756,6 +790,14 @@ func cliFunc(src *source, fd *ast.FuncDecl, pkgs map[string]bool) (*cliCommand, 
 					}
 					if inArgs {
 						where = exprString(p.Fun)
+						// a re-ordering callee (sort.Strings, …) applied as a statement of the
+						// function body itself before ANY other use of the variable canonicalises the
+						// command line for output and key alike: marked `canon:`
+						if cliMutators[where] && len(uses[id.Name]) == 0 && i == 2 {
+							if _, isStmt := stack[1].(*ast.ExprStmt); isStmt && stack[0] == ast.Node(body) {
+								where = "canon:" + where
+							}
+						}
 					}
 				case *ast.IfStmt:
 					where = "if"
@@ -967,6 +1009,11 @@ structure Decl where
 /-- one ` + "`{\"key\", value}`" + ` of the encodePayload list -/
 structure Tuple where
   key : String
+  /-- form of the value expression: deref (*v), ident, method:<name>, call:<callee>, literal, other -/
+  form : String
+  /-- for an identifier: decl (a declared variable itself) or the callee / expression kind that
+  first assigns it -/
+  prov : String
   /-- identifiers read by the value expression -/
   direct : List String
   /-- declared variables reached from them through the assignments of the function -/
@@ -1020,7 +1067,7 @@ structure Command where
 			if j == len(c.payload)-1 {
 				sep = ""
 			}
-			fmt.Fprintf(&b, "      { key := %s, direct := %s, reads := %s }%s\n", leanStr(t.key), leanStrList(t.direct), leanStrList(t.reads), sep)
+			fmt.Fprintf(&b, "      { key := %s, form := %s, prov := %s, direct := %s, reads := %s }%s\n", leanStr(t.key), leanStr(t.form), leanStr(t.prov), leanStrList(t.direct), leanStrList(t.reads), sep)
 		}
 		b.WriteString("    ],\n    derived := [")
 		for j, d := range c.derived {
@@ -1062,3 +1109,50 @@ structure Command where
 	b.WriteString("end Gts.Gen.Cli\n")
 	return b.String()
 }
+
+
+// firstAssignKind: the callee (or expression kind) on the right-hand side of the first
+// assignment / definition of name in body
+func firstAssignKind(body ast.Node, name string) string {
+	kind := ""
+	ast.Inspect(body, func(n ast.Node) bool {
+		if kind != "" {
+			return false
+		}
+		as, ok := n.(*ast.AssignStmt)
+		if !ok {
+			return true
+		}
+		for i, l := range as.Lhs {
+			if id, ok := l.(*ast.Ident); ok && id.Name == name {
+				rhs := as.Rhs[0]
+				if len(as.Rhs) == len(as.Lhs) {
+					rhs = as.Rhs[i]
+				}
+				switch r := rhs.(type) {
+				case *ast.CallExpr:
+					kind = exprString(r.Fun)
+				case *ast.IndexExpr:
+					kind = "index"
+				case *ast.StarExpr:
+					kind = "deref"
+				case *ast.BasicLit:
+					kind = "literal"
+				default:
+					kind = fmt.Sprintf("%T", rhs)
+				}
+				return false
+			}
+		}
+		return true
+	})
+	if kind == "" {
+		kind = "unassigned"
+	}
+	return kind
+}
+
+// callees that re-order or overwrite their argument in place (kept in step with
+// Gts.CliTable.mutators)
+var cliMutators = map[string]bool{"sort.Strings": true, "sort.Sort": true, "sort.Stable": true, "sort.Slice": true,
+	"sort.SliceStable": true, "sort.Ints": true, "copy": true, "slices.Sort": true, "slices.Reverse": true, "rand.Shuffle": true}
